@@ -550,3 +550,9 @@ def run(chk):
     from . import c12
 
     chk.guard("O3.7", c03.SERVICE_RUNNER, c12.flag_writers, chk, "O3.7")
+    # "any valid configuration" / "an invalid configuration makes it exit": names of legacy elements resolve at any depth, and no
+    # handler in the configuration modules mistakes a constructor's TypeError / KeyError for "not a pipeline" (shared with C19, C05)
+    from . import c05, c19
+
+    chk.guard("O19.5", "Translator.construct", c19.construct_rules, chk)
+    chk.guard("O5.4", "<config modules>", c05.narrow_try, chk)
